@@ -211,6 +211,9 @@ HINTS = {
     "set_state/1": [["compound"]], "check_state/1": [["compound"]], "condition/1": [["goal"]], "seq/1": [["var"]],
     "unknown/1": [["atom"]], "module/2": [["atom", "list"]],
 }
+for _op in ("<", ">", "=<", ">=", "=:=", "=\\="):
+    # arithmetic comparisons: the other operand is a number, so that the probed operand reaches the comparison itself
+    HINTS["%s/2" % _op] = [["num", "num"], ["int", "num"]]
 for _i in range(2, 10):
     HINTS["call/%d" % _i] = [["goal"] + [None] * (_i - 1)]
     HINTS["call_nc/%d" % _i] = [["goal"] + [None] * (_i - 1)]
